@@ -5,6 +5,7 @@ import scen_proto
 import scen_group
 import scen_state
 import scen_util
+import scen_trace
 
 SHIPPED = ("shipped", "custom", "toyint", "toyed")
 
@@ -22,11 +23,21 @@ def std(gen, want=SHIPPED, batch=400):
 
 ALL = ("shipped", "custom", "toyint", "toyed", "edgen")
 
+def plus_traces(f):
+    """the property's own slices, then the replay of the library's own test-suite traces"""
+    def g(rng, tier):
+        for x in f(rng, tier):
+            yield x
+        for x in scen_trace.trace_slice(rng, tier):
+            yield x
+    return g
+
+
 REGISTRY = {
     "C11": std(scen_util.gen_C11, ("shipped", "toyint"), batch=4),
     "C17": std(scen_util.gen_C17, ()),
     "C07": std(scen_state.gen_C07, ("shipped", "toyint", "toyed"), batch=3000),
-    "C08": std(scen_state.gen_C08),
+    "C08": plus_traces(std(scen_state.gen_C08)),
     "C09": std(scen_state.gen_C09),
     "C10": std(scen_state.gen_C10),
     "C16": std(scen_state.gen_C16, ("shipped", "toyint")),
@@ -36,9 +47,9 @@ REGISTRY = {
     "C14": std(scen_group.gen_C14, ("shipped", "toyint", "toyed")),
     "C15": std(scen_group.gen_C15, ("shipped", "toyint", "toyed")),
     "C18": std(scen_group.gen_C18, ("shipped",)),
-    "C01": std(scen_proto.gen_C01),
+    "C01": plus_traces(std(scen_proto.gen_C01)),
     "C02": std(scen_proto.gen_C02),
-    "C03": std(scen_proto.gen_C03),
+    "C03": plus_traces(std(scen_proto.gen_C03)),
     "C04": std(scen_proto.gen_C04),
     "C06": std(scen_proto.gen_C06),
 }
